@@ -161,19 +161,22 @@ Print Assumptions C02_delete_expired_overlaps_set_map.
    every run by a translator (harness/srcfacts/skeleton.go) from xsync_map.go and
    xsync_mapof.go: per public method, how often a syntactic path can perform each
    kind of primitive outside a closure run by the map, and how often such a closure
-   can invoke a user function.  proofs/Skel.v ties the model programs to it in both
-   directions; a change of the call structure of a method breaks these statements. *)
-From CacheV.proofs Require SkelDefs Skel.
+   can invoke a user function.  proofs/Skel*.v tie the model programs to it in both
+   directions; a change of the call structure of a method breaks these statements.
+   Each property uses the projection of the budgets it is about (SkelDefs.relax):
+   C02 all primitives, C05 map calls and user functions, C06 callbacks, C14 clock
+   and settings. *)
+From CacheV.proofs Require SkelDefs Skel SkelMap.
 From CacheV.gen Require SrcFacts.
 From Coq Require String.
 
 (* every path of every model program -- whatever the map, the clock and the settings answer --
-   stays within what the source of the method can do (both texts) *)
+   stays within what the source of the method can do (both texts, all primitives) *)
 Theorem C02_model_within_source :
-  forall (K V : Type) (eqd : forall a b : K, {a = b} + {a <> b}) (zero : V) (o : cop K V),
+  forall (K V : Type) (eqd : forall a b : K, {a = b} + {a <> b}) (zero : V) (o : CacheV.Ops.cop K V),
     SkelDefs.is_call o ->
-    SkelDefs.within SrcFacts.budgets_map (prog_cache eqd zero) o /\
-    SkelDefs.within SrcFacts.budgets_mapof (prog_cacheof eqd zero) o.
+    (SkelDefs.within SrcFacts.budgets_map (CacheV.Ops.prog_cache eqd zero) o /\
+     SkelDefs.within SrcFacts.budgets_mapof (CacheV.Ops.prog_cacheof eqd zero) o)%type.
 Proof.
   intros K V eqd zero o H. split; [exact (Skel.cache_within_budget eqd zero o H)|exact (Skel.cacheof_within_budget eqd zero o H)].
 Qed.
@@ -182,15 +185,15 @@ Print Assumptions C02_model_within_source.
 (* ... and every entry of the source's budgets is attained by a run of the model: the source makes
    no map call, clock read, settings access or callback that the model does not know *)
 Theorem C02_source_within_model :
-  SkelDefs.unattained SrcFacts.budgets_map (prog_cache Z.eq_dec 0%Z) = [] /\
-  SkelDefs.unattained SrcFacts.budgets_mapof (prog_cacheof Z.eq_dec 0%Z) = [].
+  (SkelDefs.unattained SrcFacts.budgets_map (CacheV.Ops.prog_cache Z.eq_dec 0%Z) = [] /\
+   SkelDefs.unattained SrcFacts.budgets_mapof (CacheV.Ops.prog_cacheof Z.eq_dec 0%Z) = [])%type.
 Proof. split; [exact Skel.cache_budget_attained|exact Skel.cacheof_budget_attained]. Qed.
 Print Assumptions C02_source_within_model.
 
 (* the mechanism C02 rests on: in the source as it is now, each read-modify-write method is ONE Compute *)
 Theorem C02_rmw_is_one_map_call :
-  (Skel.single_compute SrcFacts.budgets_map = true /\ Skel.single_compute SrcFacts.budgets_mapof = true)%type.
-Proof. exact Skel.rmw_single_compute. Qed.
+  (SkelMap.single_compute SrcFacts.budgets_map = true /\ SkelMap.single_compute SrcFacts.budgets_mapof = true)%type.
+Proof. exact SkelMap.rmw_single_compute. Qed.
 Print Assumptions C02_rmw_is_one_map_call.
 
 Example C02_within_discriminates :
